@@ -427,7 +427,8 @@ def extension_rules(rep, prog):
 
 
 def run(prog, rep, tier):
-    pattern_entries(prog, rep, [(U + "dag_to_cpdag", "G"), (U + "order_edges", "G")])
+    pattern_entries(prog, rep, [(U + "dag_to_cpdag", "G"), (U + "order_edges", "G"), (U + "pdag_to_dag", "P"), (U + "pdag_to_cpdag", "pdag")],
+                    allow_raw=("pdag_to_dag",))        # the extension keeps the weights of the directed edges; every *decision* must read the pattern only
     marker, written, fl = label_rules(rep, prog)
     com, rev = assemble_rules(rep, prog, marker, written, fl)
     if com is not None and marker is not None:
@@ -437,6 +438,6 @@ def run(prog, rep, tier):
     ordering_typing(rep, prog, [U + "order_edges"])
     dag_gate(rep, prog, U + "order_edges", "G", rule="GATE")
     rep.require_count("LABELS", 4)
-    rep.require_count("PAT.entry", 2)
+    rep.require_count("PAT.entry", 4)
     rep.require_count("INDEX", 3)
     rep.assume("which edges are compelled / reversible (Chickering's algorithm) is not decided")
